@@ -42,12 +42,13 @@ ConcOK(r) ==
 HostSrcOf(r) == [i \in Ids(r.tree) |-> [dev |-> r.conc[i].sdev, ino |-> r.conc[i].sino, nlink |-> r.conc[i].snlink]]
 
 \* ------------------------------------------------------------------------------------------------ the model of the case
-\* mke2fs -d: __populate_fs.  debugfs script: one command per node, no hard links and no sockets (the commands have none)
-Act(r) == {i \in Ids(r.tree) : r.frontend = "mke2fs" \/ r.tree[i].kind \notin {"hard", "sock"}}
+\* mke2fs -d: __populate_fs.  debugfs script: one command per node (mkdir / write / symlink / mknod; `ln <first name> <name>` for
+\* a "hard" node, which adds the name and nothing else: the stored link count is the user's business (DESIGN 5 C10), the script
+\* ends with `sif <first name> links_count <names of the group>`); no sockets (mknod has none), hence no names of sockets either.
+\* The image inode of a name is therefore that of the first name of its group, and the count is the one the script stored.
+Act(r) == {i \in Ids(r.tree) : r.frontend = "mke2fs" \/ TypeOfNode(r.tree, i) # "sock"}
 Model(r) == IF r.frontend = "mke2fs" THEN PopModel(r.tree, HostSrcOf(r))
-            ELSE [i \in Ids(r.tree) |-> [Expect(r.tree)[i] EXCEPT !.nlink = IF r.tree[i].kind = "dir"
-                                                                     THEN 2 + Cardinality({j \in Children(r.tree, i) : r.tree[j].kind = "dir"}) ELSE 1]
-                                         @@ [ino |-> i]]
+            ELSE [i \in Ids(r.tree) |-> Expect(r.tree)[i] @@ [ino |-> Src(r.tree, i)]]
 
 Img(r) == Rng(r.img)
 P(r, i) == r.conc[i].path
@@ -98,9 +99,18 @@ RdClauses(r) ==
      DumpCat   |-> \A d \in Rng(r.dump) : d.size = RM[d.id].size /\ (RM[d.id].size = M[d.id].size => d.digest = r.conc[d.id].digest),
      DumpPerms |-> \A d \in Rng(r.dump) : d.how = "dump" => d.perm = RM[d.id].perm /\ d.uid = RM[d.id].uid /\ d.gid = RM[d.id].gid ]   \* dump -p
 
+\* the HardLinks clause against another model of the population
+HardLinksUnder(r, M) == LET H == Here(r)  at == [i \in H |-> At(r, i)] IN
+                        /\ \A i, j \in H : (at[i].ino = at[j].ino) = (M[i].ino = M[j].ino)
+                        /\ \A i \in H : at[i].nlink = M[i].nlink
+\* Named deviation DevSymlinkLinksSplit: the image is not what the property asks for (clause HardLinks false) but exactly what
+\* __populate_fs as pinned produces (LiteralLinkTypes: names of a hard-linked symlink are never looked up in hdlinks, each gets
+\* an inode of its own with link count 1).  Such a line is reported under the name of the deviation instead of the clause.
 Failed(r) == LET cl == Clauses(r)
                  rd == IF r.rdump_run = 1 THEN RdClauses(r) ELSE [RdNames |-> TRUE]
-             IN {c \in DOMAIN cl : ~cl[c]} \cup {c \in DOMAIN rd : ~rd[c]}
+                 f == {c \in DOMAIN cl : ~cl[c]} \cup {c \in DOMAIN rd : ~rd[c]}
+             IN IF "HardLinks" \in f /\ Full(r) /\ HardLinksUnder(r, PopModelWith(r.tree, HostSrcOf(r), LiteralLinkTypes))
+                THEN (f \ {"HardLinks"}) \cup {"DevSymlinkLinksSplit"} ELSE f
 
 Cfg(r) == [bs |-> r.cfg.bs, ea_inode |-> IF Full(r) THEN r.cfg.ea_inode ELSE 1]       \* the debugfs script sets no xattrs
 
